@@ -167,7 +167,10 @@ func runC19(c *runCtx) {
 		"xlsx": {"xl/workbook.xml", "xl/_rels/workbook.xml.rels", "xl/worksheets/sheet1.xml"},
 		"pptx": {"ppt/presentation.xml", "ppt/slides/slide1.xml"},
 	}
-	nearMiss := []string{"word", "xl", "ppt", "words/a.xml", "xlx/b.xml", "META-INF/", "META-INF/container.xml", "meta-inf/manifest.mf", "content.xml", "a/word/document.xml", "readme.txt", "images/logo.png", "src/main/java/App.java", "Word/document.xml"}
+	nearMiss := []string{"word", "xl", "ppt", "words/a.xml", "xlx/b.xml", "META-INF/", "META-INF/container.xml", "meta-inf/manifest.mf", "content.xml", "a/word/document.xml", "readme.txt", "images/logo.png", "src/main/java/App.java", "Word/document.xml",
+		// near misses of the APK / JAR markers: their directories and truncated or extended spellings
+		"res/strings.properties", "res/readme.txt", "res/", "res/layout.json", "res/drawabl", "resources.ars", "resources/arsc", "classes.de", "classes/dex", "AndroidManifest.xm", "androidmanifest.xml",
+		"META-INF/MANIFEST.M", "META-INF/MANIFEST", "META-INF/com/android/build/gradle/app-metadata.propertie", "notes.txt", "data/table.csv"}
 	apk := []string{"AndroidManifest.xml", "classes.dex", "resources.arsc", "res/drawable/icon.png", "META-INF/com/android/build/gradle/app-metadata.properties"}
 	odf := []string{"application/vnd.oasis.opendocument.text", "application/vnd.oasis.opendocument.text-template", "application/vnd.oasis.opendocument.spreadsheet", "application/vnd.oasis.opendocument.spreadsheet-template",
 		"application/vnd.oasis.opendocument.presentation", "application/vnd.oasis.opendocument.presentation-template", "application/vnd.oasis.opendocument.graphics", "application/vnd.oasis.opendocument.graphics-template",
